@@ -484,6 +484,8 @@ J gen_world(uint64_t seed, const J &opts)
 				nf["send"] = 1;
 				nf["kind"] = g.chance(500) ? "stray" : "notify";
 				nf["gap_ms"] = (long long)g.pick(std::vector<long long>{0, 300, 1500, 2500, 5000});
+				if (g.chance(250)) // the path stalls inside the 8-byte header
+					nf["stall_b"] = (long long)g.range(1, 7);
 				ex["notify"] = nf;
 			} else if (g.chance(500)) {
 				J nf = J::obj();
